@@ -15,6 +15,7 @@ import GoldilocksVerif.Lemmas.ExtIrred
 import GoldilocksVerif.Lemmas.ExtBatch
 import GoldilocksVerif.Lemmas.BridgeExt
 import GoldilocksVerif.Lemmas.BridgeExtBatch
+import GoldilocksVerif.Lemmas.BridgeExtScalar
 
 namespace GoldilocksVerif.C09
 open GoldilocksVerif Gen.Ext Model
@@ -216,6 +217,20 @@ theorem C09_generated_batchInverse_eq_inv (fuel : Nat) (res src r out a' : Regio
     den3 (Region.shift r (3 * i)) = den3 a' :=
   K3.inv_unique _ _ _ (((G3_batchInverse_gen_spec fuel res src size h1 hsz hf hf2).2 r h).1 i hi)
     ((G3_inv_gen_spec fuel hf out _).2 a' hinv).1
+
+/-- translated `mulScalar(result, a, decimal string)` (Gen/ExtScalarGen.lean: three calls of the translated `fromString` with
+    the default radix 10): for every numeral denoting the integer x (any sign, any size) it returns a·x in K3, writes only
+    words 0,1,2 of the result, and equals the hand model; a string GMP rejects ends the call (`none`) -/
+theorem C09_generated_mulScalar (fuel : Nat) (result a : Region) (s : String) :
+    Gen.ExtScalarGen.G3_mulScalar fuel result a s = (g3mulScalar (E3.ofRegion a) s).map (put3 result) ∧
+    (∀ x : Int, parseInt 10 s = some x →
+      ∃ r, Gen.ExtScalarGen.G3_mulScalar fuel result a s = some r ∧
+        den3 r = K3.mul (den3 a) (K3.ofBase (x : F)) ∧ ∀ k, 3 ≤ k → r k = result k) := by
+  refine ⟨G3_mulScalar_gen_eq fuel result a s, fun x hx => ?_⟩
+  obtain ⟨e, he, hd⟩ := g3mulScalar_den (E3.ofRegion a) s x hx
+  refine ⟨put3 result e, ?_, ?_, fun k hk => put3_frame result e k hk⟩
+  · rw [G3_mulScalar_gen_eq, he]; rfl
+  · rw [den3_put3, hd]; rfl
 
 /-- non-vacuity: an element with non-canonical coefficients that is one -/
 example : den3 (Region.ofList [18446744069414584322#64, 18446744069414584321#64, 0#64]) = K3.one := by
